@@ -4,7 +4,7 @@ KNOWN_FINDINGS.json loader (DESIGN 1.6). The file is committed and never written
 A violation is identified by its *signature*: the invariant that failed plus the minimal detail that pins the
 defect (the simulations compute it narrowly: a discrepancy gets a known-defect signature only if that defect
 explains all of it). An entry with status "known" suppresses exactly the violations whose signature equals
-``match.signature``; an entry with status "fixed" suppresses nothing.
+``match.signature`` (or is one of ``match.signatures``); an entry with status "fixed" suppresses nothing.
 """
 import json
 import os
@@ -30,6 +30,7 @@ def classify(known: typing.List[dict], prop: str, violation: dict) -> typing.Opt
     for e in known:
         if e.get("status") != "known" or e.get("property") != prop:
             continue
-        if e.get("match", {}).get("signature") == violation.get("signature"):
+        m = e.get("match", {})
+        if m.get("signature") == violation.get("signature") or violation.get("signature") in m.get("signatures", []):
             return e
     return None
